@@ -1262,3 +1262,62 @@ Proof.
       * intros (_ & _ & ->). reflexivity.
     + split; [discriminate|]. intros (_ & H & _). discriminate.
 Qed.
+
+(* ------------------------------------------------------------------------------------------ *)
+(* histories on one running site: the answer to a request is a function of the file system as it
+   is when the request arrives; whatever was asked and whatever was on disk before is irrelevant *)
+Definition sound_outcome (s : site) (r : request) (o : outcome) : Prop :=
+  match o with
+  | Serve n enc =>
+      is_get_head (q_meth r) = true /\ In n (s_fs s) /\
+      served_from (s_pages s) (q_path r) (q_ae r) enc (n_path n) /\
+      n_dir n = false /\ is_hidden (s_fs s) (s_hide s) n = false
+  | Listing kids =>
+      forall k, In k kids -> In k (s_fs s) /\ is_child (jail (q_path r)) (n_path k) = true /\
+                             is_hidden (s_fs s) (s_hide s) k = false
+  | Archive ms =>
+      forall k, In k ms -> In k (s_fs s) /\ is_desc (jail (q_path r)) (n_path k) = true /\
+                           has_prefix (n_path k) (jail (q_path r)) = true /\
+                           is_hidden (s_fs s) (s_hide s) k = false
+  | Redirect code loc =>
+      rooted (s_prefix s) -> rooted (q_path r) -> one_slash loc = true /\ same_origin loc = true
+  | Status _ => True
+  end.
+
+Lemma site_sound_outcome (s : site) (r : request) : sound_outcome s r (handle s r).
+Proof. unfold sound_outcome. exact (site_sound s r). Qed.
+
+Lemma with_fs_same (s : site) : with_fs s (s_fs s) = s.
+Proof. destruct s; reflexivity. Qed.
+
+Lemma with_fs_twice (s : site) (a b : fsys) : with_fs (with_fs s a) b = with_fs s b.
+Proof. reflexivity. Qed.
+
+Lemma history_current_files (s : site) (h : list event) (fs : fsys) (r : request) (o : outcome) :
+  In (fs, r, o) (run_history s h) ->
+  o = handle (with_fs s fs) r /\ sound_outcome (with_fs s fs) r o.
+Proof.
+  revert s. induction h as [|e t IH]; intros s Hin; [destruct Hin|].
+  destruct e as [r0|fs0]; simpl in Hin.
+  - destruct Hin as [E|Hin].
+    + injection E as <- <- <-. rewrite with_fs_same. split; [reflexivity|apply site_sound_outcome].
+    + exact (IH s Hin).
+  - destruct (IH (with_fs s fs0) Hin) as (H1 & H2).
+    rewrite with_fs_twice in H1, H2. split; assumption.
+Qed.
+
+Lemma run_history_app (s : site) (h t : list event) :
+  run_history s (h ++ t) = run_history s h ++ run_history (with_fs s (current_fs (s_fs s) h)) t.
+Proof.
+  revert s. induction h as [|e h IH]; intros s; simpl.
+  - rewrite with_fs_same. reflexivity.
+  - destruct e as [r0|fs0]; simpl.
+    + rewrite IH. reflexivity.
+    + rewrite IH. reflexivity.
+Qed.
+
+(* two histories that end with the same files on disk: the next request gets the same answer *)
+Lemma history_irrelevant (s : site) (h1 h2 : list event) (fs : fsys) (r : request) :
+  run_history s (h1 ++ [EDisk fs; EReq r]) = run_history s h1 ++ [(fs, r, handle (with_fs s fs) r)] /\
+  run_history s (h2 ++ [EDisk fs; EReq r]) = run_history s h2 ++ [(fs, r, handle (with_fs s fs) r)].
+Proof. split; rewrite run_history_app; reflexivity. Qed.
